@@ -523,8 +523,8 @@ def part_a(ck, im, rng, cases, n_trees):
             ck.count('A:CLog-malformed:' + kind + ':' + made)
             ck.nontriv(('A', k, 'malformed', made))
         if redits:
-            for _ in range(6):
-                ia, ib = rng.randrange(len(redits)), rng.randrange(len(redits))
+            pairs = [(ia, ib) for ia in range(len(redits)) for ib in range(len(redits))]
+            for ia, ib in (pairs if len(pairs) <= 36 else rng.sample(pairs, 36)):
                 a, b, ea, eb = redits[ia], redits[ib], bad[ia], bad[ib]
                 cases.append((f'COverlap {c_edit(ea)} {c_edit(eb)} {cb(C._overlaps(a, b))}', 'COverlap', None))
                 ck.evaluations += 1
@@ -697,7 +697,7 @@ class ProgGen:
         pad = '    ' * ind
         kinds = ['asg', 'asg', 'call', 'rnd', 'rnd']
         if depth > 1:
-            kinds += ['for', 'for', 'forlit', 'while', 'while', 'if1', 'ifelse']
+            kinds += ['for', 'for', 'forlit', 'forlit', 'while', 'while', 'if1', 'ifelse']
         k = rng.choice(kinds)
         src = rng.choice(scope)
         if k == 'asg':
@@ -931,6 +931,8 @@ def part_bc(ck, im, rng, cases, n_progs, n_seqs):
                 continue
             k = len(Ss)
             ck.count('C:(program,strategy)')
+            ck.count('C:listed-sites', k)
+            ck.count('C:listed-refusals', len(Rs))
             # sites and refusals are disjoint, in visit order, and account for every candidate
             skeys = [cand_key(f, c, keys, ex) for c in Ss]
             rkeys = [cand_key(f, c, keys, ex) for c in Rs]
@@ -1009,6 +1011,7 @@ def part_bc(ck, im, rng, cases, n_progs, n_seqs):
                     outs[j] = None
                     continue
                 rep = {'program': f.format(), 'strategy': sname, 'where': j, 'sites': [str(c) for c in Ss]}
+                ck.count('C:index-' + ('none' if j is None else 'in-range' if 0 <= j < k else 'out-of-range'))
                 if j is not None and not 0 <= j < k:
                     if outs[j] != 'RefErr':
                         ck.violation(f'C:{sname}: an index outside the listed sites was accepted', rep)
@@ -1047,7 +1050,8 @@ def part_bc(ck, im, rng, cases, n_progs, n_seqs):
                 cases.append((f'CSites [{"; ".join(cb(b) for b in refs)}] {c_opt(j, cz)} ({o})',
                               f'C:{sname}[where={j}] vs the model of SiteRewriter\n' + f.format(), None))
             # rewrite-all and rewrite-one agree on what replaces a site
-            if not expr_sited and hasattr(outs.get(None), 'edits'):
+            nested = any(a != b and at_or_beneath(a, b) for a in site_sp for b in site_sp)
+            if not expr_sited and not nested and hasattr(outs.get(None), 'edits'):
                 allmap = {(im.un_bpath(e.block_path), e.index): e for e in outs[None].edits.edits}
                 for j in range(k):
                     if hasattr(outs.get(j), 'edits') and len(outs[j].edits.edits) == 1:
@@ -1191,7 +1195,7 @@ def run(ck):
     import os
     parts = os.environ.get('C19_PARTS', 'ABC')
     if 'A' in parts:
-        part_a(ck, im, rng, cases, 400 if thorough else 120)
+        part_a(ck, im, rng, cases, 400 if thorough else 90)
     if 'B' in parts or 'C' in parts:
         part_bc(ck, im, Rng(ck.seed, 'c19-bc'), cases, 60 if thorough else 14, 400 if thorough else 80)
 
@@ -1200,7 +1204,7 @@ def run(ck):
     for t, d, _ in cases[:2] + cases[len(cases) // 2:len(cases) // 2 + 2]:
         ck.sample(t[:600])
     ck.log(f'{len(cases)} model cases')
-    bad, err = ck.coq_eval_mismatches(HEADER, 'case19', [c[0] for c in cases], 'check19', chunk=120)
+    bad, err = ck.coq_eval_mismatches(HEADER, 'case19', [c[0] for c in cases], 'check19', chunk=280)
     if err:
         ck.broken.append('correspondence evaluation failed: ' + err[:500])
     for i in bad:
